@@ -15,8 +15,10 @@ Next == \/ /\ i = 0 /\ i' \in {1 + K * s : s \in 0..((N - 1) \div K)}
 
 (* ---- split: index of the first writing of the field list that was not read back, 0 if none *)
 SplitBad(r) == LET B == {k \in 1..Len(r.lines) :
-                           \/ r.outs[k].ok # 1 \/ r.outs[k].rest # 0            \* the line (and only it) must be consumed
-                           \/ ~SameFields(r.outs[k].row, r.fields)
+                           \/ r.outs[k].ok # 1
+                           \/ (~AllEmpty(r.fields) /\ r.outs[k].rest # 0)      \* the line (and only it) must be consumed;
+                                                                               \* a blank line may be skipped
+                           \/ (~AllEmpty(r.fields) /\ ~SameFields(r.outs[k].row, r.fields))
                            \/ SplitLine(r.lines[k]) # [ok |-> TRUE, fields |-> r.fields]}
                IN IF B = {} THEN 0 ELSE CHOOSE k \in B : \A j \in B : k <= j
 SplitOk(r) == /\ Len(r.outs) = Len(r.lines) /\ SplitBad(r) = 0
